@@ -418,6 +418,9 @@ impl OsIpcSender {
         let (dedicated_tx, dedicated_rx) = channel()?;
         // Extract FD handle without consuming the Receiver, so the FD doesn't get closed.
         fds.push(dedicated_rx.fd.get());
+        // Our own copy of the dedicated receiver is only needed until the first fragment,
+        // which carries it, has been sent (see below).
+        let mut dedicated_rx = Some(dedicated_rx);
 
         // Split up the packet into fragments.
         let mut byte_position = 0;
@@ -452,6 +455,14 @@ impl OsIpcSender {
                 }
             }
 
+            if byte_position == 0 {
+                // The first fragment is on its way, and with it the dedicated receiver.
+                // Close our copy now: if the receiving end of the channel goes away while we
+                // are still waiting for room for a follow-up fragment, the dedicated socket
+                // must lose its last reader, so that the wait ends with an error instead
+                // of lasting forever.
+                dedicated_rx.take();
+            }
             byte_position = end_byte_position;
         }
 
